@@ -17,6 +17,10 @@ CHECKS = {
    tech="bounded exhaustive differential exploration of the full optimisation-configuration matrix per program and dialect, plus reference interpreter",
    text="A slice of C01's exhaustively enumerated sub-spaces (~350 programs quick, several thousand thorough) and the modern programs shipped under resources/tests are compiled for every sigil under all 8 combinations of optimize / frontend_opt / classic post-optimiser and run by clvmr on valuations enumerated from the parameter shape. Checked on every (program, valuation): every build equals the reference value; any two value-returning builds agree (across the two integer-mode groups only without zero-led literals); and within a dialect, switching optimize or the post-optimiser on never turns a value-returning build into a failing one (compared at equal frontend_opt, as the property states).",
    note="Trusted: reference interpreter, clvmr. Shipped programs get argument trees enumerated over a 6-value alphabet; pairs where no build returns a value make no claim and are counted. Known findings F13 F14 F27 F28 matched as in C01."),
+ "C03": dict(engine="progmc", cat="exploration", ref="DESIGN.md 4/C03",
+   tech="bounded exhaustive enumeration of classic-expressible programs, classic build vs reference interpreter and vs the cl21 build",
+   text="Every parameter tree with <= 3 (thorough 4) leaves and every flat / improper list of 1..40 parameters as main, defun and defun-inline parameters (called positionally), every boundary literal and operator in 6 positions, binder chains of length <= 2 (3) over defun / inline / template macro / if, recursion, constant calls and expression kernels are compiled without sigil through compile_clvm_text and run by clvmr; the classic build must return the reference value whenever there is one, and must agree with the modern cl21 build of the same source whenever both return a value.",
+   note="Trusted: reference interpreter, clvmr. Quoted symbols and unbound identifiers are not generated (classic reads operator-spelled atoms as opcodes by design)."),
  "C04": dict(engine="clvmmc", cat="exploration", ref="DESIGN.md 4/C04",
    tech="bounded exhaustive enumeration of CLVM trees and of a path/wrapper/re-rooting family, optimiser output vs original under the consensus evaluator",
    text="Every CLVM tree with <= 4 (thorough 5) leaves over a 16-atom core alphabet, every (a (q . S) ARGS) with S <= 3 (4) leaves x 9 ARGS forms, and the product of ~1.7k (thorough ~4.8k) path atoms (1..9 bytes, all-ones, top-bit-set, zero-padded) x f/r wrapper chains (all short ones, homogeneous/alternating up to 80) x 6 re-rootings is optimised by optimize_sexp (and small trees by run_optimizer in both integer modes); original and output are evaluated by clvmr in a family of environments (complete trees, 90-deep spines, trees tailored to the path's bits). Exhaustive inside these bounds; the property's 'randomly beyond' region is replaced by the structured path family.",
